@@ -222,26 +222,34 @@ Proof.
 Qed.
 
 (* ---------------- keys ---------------- *)
-Lemma get_by_kid_safe ks kid : safe (get_by_kid ks kid).
+Lemma get_by_kid_safe g ks kid : g_kid_repr g = true -> safe (get_by_kid g ks kid).
 Proof.
+  intro K.
+  assert (NF : safe (if g_kid_repr g && negb (match kid with PNone | PStr _ => true | _ => false end)
+                     then @Err key (EJose InvalidKeyIdError)
+                     else do _ <- py_format kid; Err (EJose InvalidKeyIdError))).
+  { rewrite K. destruct kid; cbn [andb negb]; try reflexivity; unfold py_format; cbn; reflexivity. }
   assert (X : safe (match find (fun k => py_eq (k_kid k) kid) ks with
-                    | Some k => Ok k | None => Err (EJose InvalidKeyIdError) end)).
-  { destruct (find _ ks); simpl; auto. }
+                    | Some k => Ok k
+                    | None => if g_kid_repr g && negb (match kid with PNone | PStr _ => true | _ => false end)
+                              then Err (EJose InvalidKeyIdError)
+                              else do _ <- py_format kid; Err (EJose InvalidKeyIdError) end)).
+  { destruct (find _ ks); [exact I | exact NF]. }
   unfold get_by_kid. destruct kid; try exact X.
   destruct ks as [|k0 [|k2 r]]; try exact X. exact I.
 Qed.
 
-Lemma guess_key_safe ka d : safe (guess_key ka (Ok (PDict d))).
+Lemma guess_key_safe g ka d : g_kid_repr g = true -> safe (guess_key g ka (Ok (PDict d))).
 Proof.
-  unfold guess_key. destruct (norm_key ka); cbn [bind py_get_str]; try exact I; try reflexivity.
-  destruct (dget d (SK "kid")); cbn [bind]; apply get_by_kid_safe.
+  intro K. unfold guess_key. destruct (norm_key ka); cbn [bind py_get_str]; try exact I; try reflexivity.
+  destruct (dget d (SK "kid")); cbn [bind]; apply get_by_kid_safe; exact K.
 Qed.
 
 Lemma check_use_safe k u : safe (check_use k u).
 Proof. unfold check_use. destruct (_ && _); simpl; auto. Qed.
 Lemma jws_check_key_type_safe r k : safe (jws_check_key_type r k).
 Proof. unfold jws_check_key_type. destruct (_ =? _)%string; simpl; auto. Qed.
-#[export] Hint Resolve get_by_kid_safe guess_key_safe check_use_safe jws_check_key_type_safe : c16.
+#[export] Hint Resolve check_use_safe jws_check_key_type_safe : c16.
 
 (* ================================================================== *)
 (* primitives with their exception contract                            *)
@@ -326,13 +334,13 @@ Proof.
 Qed.
 
 Lemma jws_validate_safe g reg ka d si ss :
-  g_crit g = true -> g_eddsa g = true -> jws_reg_wf reg = true ->
+  g_kid_repr g = true -> g_crit g = true -> g_eddsa g = true -> jws_reg_wf reg = true ->
   safe (jws_validate g P reg ka true (PDict d) si ss).
 Proof.
-  intros G1 G2 W. unfold jws_validate.
+  intros K G1 G2 W. unfold jws_validate.
   pose proof W as W'. apply andb_true_iff in W'. destruct W' as [W1 _].
   apply safe_bind; [apply only_value_safe, jws_check_header_only; assumption|].
-  intros [] Hc. apply safe_bind; [apply guess_key_safe|]. intros k _.
+  intros [] Hc. apply safe_bind; [apply guess_key_safe; exact K|]. intros k _.
   apply safe_bind; [apply check_use_safe|]. intros _ _.
   destruct (jws_check_header_alg _ _ _ W Hc) as [s Ds].
   assert (Ga : py_getitem_str (PDict d) (SK "alg") = Ok (PStr s)) by (cbn [py_getitem_str]; rewrite Ds; reflexivity).
@@ -351,10 +359,10 @@ Lemma cinput_bytes_safe v : safe (cinput_bytes v).
 Proof. destruct v; simpl; [exact I | apply only_value_safe, encode_utf8_only]. Qed.
 
 Lemma jws_deserialize_compact_b_spec g reg ka value :
-  needs_jws_compact g = true -> jws_reg_wf reg = true ->
+  g_kid_repr g = true -> needs_jws_compact g = true -> jws_reg_wf reg = true ->
   safe (jws_deserialize_compact_b g P reg ka value).
 Proof.
-  intros N W. unfold needs_jws_compact in N. repeat (apply andb_true_iff in N; destruct N as [N ?]).
+  intros K N W. unfold needs_jws_compact in N. repeat (apply andb_true_iff in N; destruct N as [N ?]).
   unfold jws_deserialize_compact_b.
   pose proof (jws_extract_compact_spec g value N H1) as E.
   destruct (jws_extract_compact g P value) as [o|e]; cbn [bind]; [|exact E].
@@ -364,10 +372,10 @@ Proof.
 Qed.
 
 Theorem jws_deserialize_compact_safe g reg ka v :
-  needs_jws_compact g = true -> jws_reg_wf reg = true ->
+  g_kid_repr g = true -> needs_jws_compact g = true -> jws_reg_wf reg = true ->
   safe (jws_deserialize_compact g P reg ka v).
 Proof.
-  intros N W. unfold jws_deserialize_compact. apply safe_bind; [apply cinput_bytes_safe|].
+  intros K N W. unfold jws_deserialize_compact. apply safe_bind; [apply cinput_bytes_safe|].
   intros b _. apply jws_deserialize_compact_b_spec; assumption.
 Qed.
 
@@ -379,10 +387,10 @@ Proof.
 Qed.
 
 Theorem jwt_decode_jws_safe g reg ka v :
-  needs_jws_compact g = true -> g_rec_claims g = true -> jws_reg_wf reg = true ->
+  g_kid_repr g = true -> needs_jws_compact g = true -> g_rec_claims g = true -> jws_reg_wf reg = true ->
   safe (jwt_decode_jws g P reg ka v).
 Proof.
-  intros N G W. unfold jwt_decode_jws. apply safe_bind; [apply cinput_bytes_safe|]. intros b _.
+  intros K N G W. unfold jwt_decode_jws. apply safe_bind; [apply cinput_bytes_safe|]. intros b _.
   apply safe_bind; [apply jws_deserialize_compact_b_spec; assumption|]. intros o _.
   apply safe_bind; [apply decode_claims_safe; assumption|]. intros c _. exact I.
 Qed.
@@ -390,10 +398,10 @@ Qed.
 Definition needs_7797_compact (g : guards) : bool := needs_jws_compact g && g_kt7797 g.
 
 Theorem r7797_deserialize_compact_safe g reg0 reg7 ka v :
-  needs_7797_compact g = true -> jws_reg_wf reg0 = true -> jws_reg_wf reg7 = true ->
+  g_kid_repr g = true -> needs_7797_compact g = true -> jws_reg_wf reg0 = true -> jws_reg_wf reg7 = true ->
   safe (r7797_deserialize_compact g P reg0 reg7 ka v).
 Proof.
-  intros N W0 W7. apply andb_true_iff in N. destruct N as [N K].
+  intros KR N W0 W7. apply andb_true_iff in N. destruct N as [N K].
   pose proof N as N'. unfold needs_jws_compact in N'. repeat (apply andb_true_iff in N'; destruct N' as [N' ?]).
   unfold r7797_deserialize_compact. apply safe_bind; [apply cinput_bytes_safe|]. intros value _.
   destruct (split_dot value) as [|hs [|ps [|ss [|x r]]]]; try reflexivity.
@@ -481,11 +489,11 @@ Lemma str_utf8_only v : is_str v = true -> only_value (str_utf8 v).
 Proof. destruct v; try discriminate. intros _. apply encode_utf8_only. Qed.
 
 Lemma verify_signature_safe g reg ka p h sig pseg :
-  g_crit g = true -> g_eddsa g = true -> jws_reg_wf reg = true ->
+  g_kid_repr g = true -> g_crit g = true -> g_eddsa g = true -> jws_reg_wf reg = true ->
   hdr_ok p = true -> hdr_ok h = true -> jws_sig_shape sig = true ->
   safe (verify_signature g P reg ka (p, h) sig pseg).
 Proof.
-  intros G1 G2 W A B Sh. unfold verify_signature. cbn [fst snd].
+  intros K G1 G2 W A B Sh. unfold verify_signature. cbn [fst snd].
   destruct (member_headers_dict p h A B) as [d E]. rewrite E. cbn [bind].
   pose proof W as W'. apply andb_true_iff in W'. destruct W' as [W1 _].
   apply safe_bind; [apply only_value_safe, jws_check_header_only; assumption|].
@@ -494,7 +502,7 @@ Proof.
   rewrite (getitem_of_dget _ _ _ Ds). cbn [bind].
   pose proof (jws_get_alg_spec g reg (PStr s) (or_intror eq_refl)) as Al.
   destruct (jws_get_alg g reg (PStr s)) as [row|e]; cbn [bind]; [|subst; reflexivity].
-  apply safe_bind; [apply guess_key_safe|]. intros k _.
+  apply safe_bind; [apply guess_key_safe; exact K|]. intros k _.
   apply safe_bind; [apply check_use_safe|]. intros _ _.
   unfold jws_check_key_type. destruct (String.eqb (k_kty k) (ja_key_type row)) eqn:KT; cbn [bind]; [|reflexivity].
   apply String.eqb_eq in KT.
@@ -516,10 +524,10 @@ Definition member_ok (ms : (pv * pv) * pv) : Prop :=
   hdr_ok (fst (fst ms)) = true /\ hdr_ok (snd (fst ms)) = true /\ jws_sig_shape (snd ms) = true.
 
 Lemma verify_all_safe g reg ka pseg l :
-  g_crit g = true -> g_eddsa g = true -> jws_reg_wf reg = true ->
+  g_kid_repr g = true -> g_crit g = true -> g_eddsa g = true -> jws_reg_wf reg = true ->
   Forall member_ok l -> safe (verify_all g P reg ka pseg l).
 Proof.
-  intros G1 G2 W F. induction F as [|[[p h] s] l [A [B C]] F IH]; [exact I|].
+  intros K G1 G2 W F. induction F as [|[[p h] s] l [A [B C]] F IH]; [exact I|].
   cbn [verify_all]. apply safe_bind; [apply verify_signature_safe; assumption|].
   intros [] _; [exact IH | exact I].
 Qed.
@@ -567,10 +575,10 @@ Definition needs_jws_json (g : guards) : bool :=
   g_rec_header g && g_dict_jws_json g && g_crit g && g_eddsa g.
 
 Theorem jws_deserialize_json_safe g reg ka value :
-  needs_jws_json g = true -> jws_reg_wf reg = true -> jws_documented_shape value = true ->
+  g_kid_repr g = true -> needs_jws_json g = true -> jws_reg_wf reg = true -> jws_documented_shape value = true ->
   safe (jws_deserialize_json g P reg ka value).
 Proof.
-  intros N W Sh. unfold needs_jws_json in N. repeat (apply andb_true_iff in N; destruct N as [N ?]).
+  intros K N W Sh. unfold needs_jws_json in N. repeat (apply andb_true_iff in N; destruct N as [N ?]).
   destruct value as [| | | | | |l0|d]; try discriminate. cbn [jws_documented_shape] in Sh.
   apply andb_true_iff in Sh. destruct Sh as [Rp Rest].
   unfold jws_deserialize_json. rewrite py_in_dict. cbn [bind].
@@ -593,11 +601,11 @@ Qed.
 Definition needs_7797_json (g : guards) : bool := needs_jws_json g && g_dict_7797_json g.
 
 Theorem r7797_deserialize_json_safe g reg0 reg7 ka value :
-  needs_7797_json g = true -> jws_reg_wf reg0 = true -> jws_reg_wf reg7 = true ->
+  g_kid_repr g = true -> needs_7797_json g = true -> jws_reg_wf reg0 = true -> jws_reg_wf reg7 = true ->
   jws_documented_shape value = true ->
   safe (r7797_deserialize_json g P reg0 reg7 ka value).
 Proof.
-  intros N W0 W7 Sh. apply andb_true_iff in N. destruct N as [N G7].
+  intros K N W0 W7 Sh. apply andb_true_iff in N. destruct N as [N G7].
   pose proof N as N'. unfold needs_jws_json in N'. repeat (apply andb_true_iff in N'; destruct N' as [N' ?]).
   destruct value as [| | | | | |l0|d] eqn:EV; try discriminate. rewrite <- EV in *.
   assert (J0 : forall reg, jws_reg_wf reg = true -> safe (jws_deserialize_json g P reg ka value))
@@ -1194,13 +1202,13 @@ Proof.
   destruct c; reflexivity.
 Qed.
 
-Lemma guess_sender_key_safe sa d : safe (guess_sender_key sa (Ok (PDict d))).
+Lemma guess_sender_key_safe g sa d : g_kid_repr g = true -> safe (guess_sender_key g sa (Ok (PDict d))).
 Proof.
-  destruct sa as [|k|[|k0 ks]]; cbn [guess_sender_key]; try exact I.
+  intro K. destruct sa as [|k|[|k0 ks]]; cbn [guess_sender_key]; try exact I.
   - apply safe_bind; [apply check_use_safe|]. intros; exact I.
   - cbn [bind py_get_str]. set (ks' := k0 :: ks).
-    assert (X : forall skid, safe (if py_truth skid then do k <- get_by_kid ks' skid; do _ <- check_use k "enc"; Ok (Some k) else Err EValue)).
-    { intro skid. destruct (py_truth skid); [|reflexivity]. apply safe_bind; [apply get_by_kid_safe|]. intros k _.
+    assert (X : forall skid, safe (if py_truth skid then do k <- get_by_kid g ks' skid; do _ <- check_use k "enc"; Ok (Some k) else Err EValue)).
+    { intro skid. destruct (py_truth skid); [|reflexivity]. apply safe_bind; [apply get_by_kid_safe; exact K|]. intros k _.
       apply safe_bind; [apply check_use_safe|]. intros; exact I. }
     destruct (dget d (SK "skid")); cbn [bind]; apply X.
 Qed.
@@ -1208,10 +1216,10 @@ Qed.
 Definition needs_jwe_compact (g : guards) : bool := needs_jwe_core g && g_rec_header g && g_dict_jwe_compact g.
 
 Lemma jwe_decrypt_compact_b_safe g reg ka sa value :
-  needs_jwe_compact g = true -> jwe_reg_wf2 reg = true ->
+  g_kid_repr g = true -> needs_jwe_compact g = true -> jwe_reg_wf2 reg = true ->
   safe (jwe_decrypt_compact_b g P reg ka sa value).
 Proof.
-  intros N W. apply andb_true_iff in N. destruct N as [N Gd]. apply andb_true_iff in N. destruct N as [N Gr].
+  intros K N W. apply andb_true_iff in N. destruct N as [N Gd]. apply andb_true_iff in N. destruct N as [N Gr].
   unfold jwe_decrypt_compact_b.
   destruct (split_dot value) as [|hs [|eks [|ivs [|cts [|tgs [|x r]]]]]]; try reflexivity.
   assert (X : match catch_type_value DecodeError
@@ -1235,26 +1243,26 @@ Proof.
   apply safe_bind; [apply b64d_safe|]. intros tag _.
   apply safe_bind; [apply b64d_safe|]. intros ek _.
   destruct (recipient_headers_dict false pd PNone PNone eq_refl eq_refl) as [hd Eh]. rewrite Eh.
-  apply safe_bind; [apply guess_key_safe|]. intros k _.
+  apply safe_bind; [apply guess_key_safe; exact K|]. intros k _.
   apply safe_bind; [apply check_use_safe|]. intros _ _.
-  apply safe_bind; [apply guess_sender_key_safe|]. intros sk _.
+  apply safe_bind; [apply guess_sender_key_safe; exact K|]. intros sk _.
   apply safe_bind; [|intros; exact I].
   apply perform_decrypt_safe with (pd := pd); [exact N | exact W | reflexivity | reflexivity |].
   constructor; [|constructor]. split; [reflexivity | eexists; reflexivity].
 Qed.
 
 Theorem jwe_decrypt_compact_safe g reg ka sa v :
-  needs_jwe_compact g = true -> jwe_reg_wf2 reg = true -> safe (jwe_decrypt_compact g P reg ka sa v).
+  g_kid_repr g = true -> needs_jwe_compact g = true -> jwe_reg_wf2 reg = true -> safe (jwe_decrypt_compact g P reg ka sa v).
 Proof.
-  intros N W. unfold jwe_decrypt_compact. apply safe_bind; [apply cinput_bytes_safe|].
+  intros K N W. unfold jwe_decrypt_compact. apply safe_bind; [apply cinput_bytes_safe|].
   intros b _. apply jwe_decrypt_compact_b_safe; assumption.
 Qed.
 
 Theorem jwt_decode_jwe_safe g reg ka v :
-  needs_jwe_compact g = true -> g_rec_claims g = true -> jwe_reg_wf2 reg = true ->
+  g_kid_repr g = true -> needs_jwe_compact g = true -> g_rec_claims g = true -> jwe_reg_wf2 reg = true ->
   safe (jwt_decode_jwe g P reg ka v).
 Proof.
-  intros N G W. unfold jwt_decode_jwe. apply safe_bind; [apply cinput_bytes_safe|]. intros b _.
+  intros K N G W. unfold jwt_decode_jwe. apply safe_bind; [apply cinput_bytes_safe|]. intros b _.
   apply safe_bind; [apply jwe_decrypt_compact_b_safe; assumption|]. intros r _.
   apply safe_bind; [apply decode_claims_safe; assumption|]. intros c _. exact I.
 Qed.
@@ -1305,17 +1313,17 @@ Proof.
   constructor; assumption.
 Qed.
 
-Lemma attach_keys_spec ka sa pd u rl :
-  hdr_ok u = true -> Forall rl_ok rl ->
-  match attach_keys true ka sa (PDict pd) u rl with Ok recs => Forall rec_ok recs | Err e => allowed_exn e = true end.
+Lemma attach_keys_spec g ka sa pd u rl :
+  g_kid_repr g = true -> hdr_ok u = true -> Forall rl_ok rl ->
+  match attach_keys g true ka sa (PDict pd) u rl with Ok recs => Forall rec_ok recs | Err e => allowed_exn e = true end.
 Proof.
-  intros U F. induction F as [|[h ek] r [Hh [b Eb]] F IH]; [constructor|].
+  intros K U F. induction F as [|[h ek] r [Hh [b Eb]] F IH]; [constructor|].
   cbn [attach_keys]. cbn [fst snd] in Hh, Eb.
   destruct (recipient_headers_dict true pd u h U Hh) as [d Ed]. rewrite Ed.
-  pose proof (guess_key_safe ka d) as GK. destruct (guess_key ka (Ok (PDict d))) as [k|e]; cbn [bind]; [|exact GK].
+  pose proof (guess_key_safe g ka d K) as GK. destruct (guess_key g ka (Ok (PDict d))) as [k|e]; cbn [bind]; [|exact GK].
   pose proof (check_use_safe k "enc") as CU. destruct (check_use k "enc") as [[]|e]; cbn [bind]; [|exact CU].
-  pose proof (guess_sender_key_safe sa d) as GS. destruct (guess_sender_key sa (Ok (PDict d))) as [sk|e]; cbn [bind]; [|exact GS].
-  destruct (attach_keys true ka sa (PDict pd) u r) as [t|e]; cbn [bind]; [|exact IH].
+  pose proof (guess_sender_key_safe g sa d K) as GS. destruct (guess_sender_key g sa (Ok (PDict d))) as [sk|e]; cbn [bind]; [|exact GS].
+  destruct (attach_keys g true ka sa (PDict pd) u r) as [t|e]; cbn [bind]; [|exact IH].
   constructor; [|exact IH]. split; [exact Hh | subst; eexists; reflexivity].
 Qed.
 
@@ -1323,10 +1331,10 @@ Definition needs_jwe_json (g : guards) : bool :=
   needs_jwe_core g && g_rec_header g && g_dict_jwe_json g && g_ek_default g.
 
 Theorem jwe_decrypt_json_safe g reg ka sa data :
-  needs_jwe_json g = true -> jwe_reg_wf2 reg = true -> jwe_documented_shape data = true ->
+  g_kid_repr g = true -> needs_jwe_json g = true -> jwe_reg_wf2 reg = true -> jwe_documented_shape data = true ->
   safe (jwe_decrypt_json g P reg ka sa data).
 Proof.
-  intros N W Sh. apply andb_true_iff in N. destruct N as [N Ge]. apply andb_true_iff in N. destruct N as [N Gd].
+  intros K N W Sh. apply andb_true_iff in N. destruct N as [N Ge]. apply andb_true_iff in N. destruct N as [N Gd].
   apply andb_true_iff in N. destruct N as [N Gr].
   destruct data as [| | | | | |l0|d]; try discriminate. cbn [jwe_documented_shape] in Sh.
   repeat (apply andb_true_iff in Sh; destruct Sh as [Sh ?]).
@@ -1363,8 +1371,8 @@ Proof.
   destruct (if dmem d (SK "recipients") then _ else _) as [items|e]; cbn [bind]; [|exact X].
   pose proof (mapM_recipients g items Ge X) as MR.
   destruct (mapM (extract_recipient g) items) as [rl|e]; cbn [bind]; [|exact MR].
-  pose proof (attach_keys_spec ka sa pd u rl Hu MR) as AK.
-  destruct (attach_keys true ka sa (PDict pd) u rl) as [recs|e]; cbn [bind]; [|exact AK].
+  pose proof (attach_keys_spec g ka sa pd u rl K Hu MR) as AK.
+  destruct (attach_keys g true ka sa (PDict pd) u rl) as [recs|e]; cbn [bind]; [|exact AK].
   apply perform_decrypt_safe with (pd := pd); [exact N | exact W | reflexivity | exact Hu | exact AK].
 Qed.
 
